@@ -221,12 +221,16 @@ fn wsess_event(case: &Arc<wsess::WCase>, plan: Plan, full: &[u8], mask: &[bool],
     let ok_after_err = l.res.iter().position(|x| x == "err").is_some_and(|i| l.res[i..].iter().any(|x| x == "ok"));
     let acc = &d.acc;
     let pre = &full[..acc.len().min(full.len())];
-    // a terminating call reported success after an earlier call had reported a failure: what does the
-    // format's reader make of the bytes the sink holds?
+    // a call reported success after an earlier call had reported a failure: what does the format's reader
+    // make of the bytes the sink holds?
     let mut rb = ("none".to_string(), "none", vec![], vec![]);
-    if let (true, Some((fmt, written))) = (ok_after_err && l.res.last().is_some_and(|x| x == "ok"), &case.read_back) {
+    let (mut rb_got, mut rb_ref) = (vec![], vec![]);
+    if let (true, Some((fmt, written))) = (ok_after_err, &case.read_back) {
         if let Some(rc) = readers.get(fmt) {
             let out = run_reader(rc, Arc::new(acc.clone()), Plan::none()).out;
+            rb_got = out.batches.clone();
+            // ... and of the fault-free output (batch by batch)
+            rb_ref = run_reader(rc, Arc::new(full.to_vec()), Plan::none()).out.batches;
             rb = (out.outcome, rc.cls, out.batches.into_iter().flatten().collect(), written.clone());
         }
     }
@@ -234,6 +238,7 @@ fn wsess_event(case: &Arc<wsess::WCase>, plan: Plan, full: &[u8], mask: &[bool],
         "op": "wsess", "fmt": case.fmt, "variant": case.variant, "k": plan.k, "kind": plan.kind.name(),
         "random_sync": case.random_sync,
         "rb": rb.0, "rb_cls": rb.1, "rb_rows": strs(&rb.2), "rb_written": strs(&rb.3),
+        "rb_got": nested(&rb_got), "rb_ref": nested(&rb_ref),
         "ncalls": ncalls, "fired": d.fired,
         "sop": ints(&d.ops), "slen": ints(&d.lens), "sret": ints(&d.rets),
         "api": strs(&l.names), "ares": strs(&l.res), "aat": ints(&l.at), "aterm": ints(&l.term),
